@@ -818,7 +818,9 @@ package main
   (callsite "(*main.HooksCaller).runAllHooks" 0 (requires trailing-round-only-when-more-arrived (> (. h pending) 1)))
   (callsite "(*main.HooksCaller).runAllHooks" 1 (requires leading-round-on-first-notification (= (. h pending) 0)))
   (callsite "(*time.Timer).Reset" 0 (requires rate-limit-interval (= $1 (. h rateLimit))))
-  (loop 0 (invariant nothing-runs-without-hooks-dir (= hook.started (old hook.started))))
+  ; the idle loop (consume and do nothing) is only for a caller without a hooks directory
+  (loop 0 (invariant nothing-runs-without-hooks-dir (= hook.started (old hook.started)))
+          (invariant idles-only-without-hooks-dir (= (. h dir) "")))
   (loop 1
     (assume fewer-than-2^64-notifications-per-interval (< (. h pending) 18446744073709551615))
     (invariant no-notification-left-uncovered (and (>= hk.uncovered 0)
